@@ -136,8 +136,8 @@ def KVs.erase (k : Val) : KVs → KVs
   | .cons k' v r => if k' = k then r else .cons k' v (KVs.erase k r)
 
 /-- `mutate_attr(obj, attr, value=<edited collection>, inplace=…, type_check=False)` -/
-def storeColl (recv : Val) (sp : AttrSpec) (coll : Val) (inplace : Bool) : Outcome :=
-  outcomeOf recv (recv.setField sp.name coll) inplace
+def storeColl (E : Env) (recv : Val) (sp : AttrSpec) (coll : Val) (inplace : Bool) : Outcome :=
+  outcomeOf recv (E.invalidate (recv.setField sp.name coll) sp.name) inplace
 
 /-- an element operation -/
 inductive EOp
@@ -278,7 +278,7 @@ def elemRun (E : Env) (n : Nat) (recv : Val) (a : Nat) (op : EOp) (inplace cond 
     else if !cond then ⟨recv, .receiver⟩
     else match elemColl E n recv sp op with
       | .error e => ⟨recv, .raised e⟩
-      | .ok coll => storeColl recv sp coll inplace
+      | .ok coll => storeColl E recv sp coll inplace
 
 /-! ## every API route -/
 
